@@ -474,6 +474,12 @@ func (g *gen) logonExchange() {
 	case 3:
 		m.reset = fVal(Bool(true))
 		m.seq = fVal(Int(1))
+		switch g.rng.Intn(6) {
+		case 0: // the application refuses the Logon that asks for a reset
+			m.app = []string{"L", "R,5,55,S", "R,3,-,B"}[g.rng.Intn(3)]
+		case 1: // the validator rejects it
+			m.valid = []string{"R,1,55,S", "R,6,38,S"}[g.rng.Intn(2)]
+		}
 	case 4:
 		g.perturb(&m)
 	case 5:
